@@ -76,10 +76,7 @@ func saveManifest(j *job) string {
 func record(r *hx.Result, j *job) {
 	o := j.out
 	probe := j.m.Probe != ""
-	r.OracleCases += 1 + o.Compared
-	if o.GenErr == "" && len(o.Diffs) == 0 {
-		r.OracleCases += 2 // build, vet
-	}
+	r.OracleCases += 1 + o.Compared + 2*o.Built // generation, tree comparisons, build + vet of every distinct tree
 	fail := func(sig, impl, expected string) {
 		// hx keeps three cases per signature: only those get their manifest written next to the replays
 		kept, path := 0, "(not kept: more than three cases with this signature)"
@@ -94,20 +91,12 @@ func record(r *hx.Result, j *job) {
 		r.OracleFail(hx.Case{Sig: sig, Op: opOf(j, path), Impl: head(impl, 900), Expected: expected,
 			Note: j.m.Summary()})
 	}
-	if sig := failureSig(o); sig != "" {
+	for _, f := range failures(o) {
+		sig := f.Sig
 		if probe {
 			sig += " (known-defect probe " + j.m.Probe + ")"
 		}
-		switch {
-		case o.GenErr != "":
-			fail(sig, o.GenErr, "generation succeeds")
-		case len(o.Diffs) > 0:
-			fail(sig, strings.Join(o.Diffs, " "), "byte-identical output trees in every process")
-		case o.BuildErr != "":
-			fail(sig, o.BuildErr, "go build of every generated package succeeds")
-		default:
-			fail(sig, o.VetErr, "go vet of every generated package is clean")
-		}
+		fail(sig, f.Impl, f.Expected)
 	}
 	if probe {
 		if o.ok() {
@@ -194,6 +183,18 @@ func family(seed int64, tier string) []*job {
 	}
 	for i := 0; i < n; i++ {
 		jobs = append(jobs, newJob(Generate(hx.Rng(seed, fmt.Sprintf("c12-m%d", i)), false)))
+	}
+	// namespace cycles closed through a third type: the fixed shapes, then grammar-made ones (streams of their own,
+	// so that the manifests above stay what they were)
+	for _, m := range thirdTypeCorpus() {
+		jobs = append(jobs, newJob(m))
+	}
+	n = 8
+	if tier == "thorough" {
+		n = 90
+	}
+	for i := 0; i < n; i++ {
+		jobs = append(jobs, newJob(GenerateThird(hx.Rng(seed, fmt.Sprintf("c12-third%d", i)))))
 	}
 	return jobs
 }
@@ -366,6 +367,12 @@ func Run(cfg Config) *hx.Result {
 		}
 		all := append(append([]*job{}, jobs...), probes...)
 		runJobs(e, all)
+		// hx keeps three cases per signature, and the recorded generator defects are matched by signature on
+		// `wild-references` manifests: those are recorded after the others, so that a failure of a well-behaved
+		// manifest is never crowded out by three wild ones showing the same class
+		sort.SliceStable(all, func(a, b int) bool {
+			return !all[a].m.Tags["wild-references"] && all[b].m.Tags["wild-references"]
+		})
 		for _, j := range all {
 			record(r, j)
 		}
